@@ -145,9 +145,11 @@ ConnPropVals == [session_expiry |-> 60, receive_max |-> 10, max_packet_size |-> 
                  request_response_info |-> 1, request_problem_info |-> 0, user |-> << <<S(1, "a"), S(1, "b")>> >>,
                  auth_method |-> S(3, "a"), auth_data |-> S(2, "b")]
 Singles(V) == {[k \in {x} |-> V[k]] : x \in DOMAIN V} \cup {V}
+\* MQTT 5 allows a password without a user name (and a user name without a password); 3.1.1 does not
+Logins5 == Logins \cup {[user |-> S(0, "a"), pass |-> S(2, "b")], [user |-> S(3, "a"), pass |-> S(0, "b")]}
 Connects5 ==
     {[t |-> "connect", keep_alive |-> 30, client_id |-> S(5, "a"), clean |-> c, will |-> w, login |-> lg, props |-> pr] :
-        c \in Bools, w \in Wills, lg \in Logins, pr \in {NoneR} \cup Singles(ConnPropVals)}
+        c \in Bools, w \in Wills, lg \in Logins5, pr \in {NoneR} \cup Singles(ConnPropVals)}
 
 ConnAckPropVals == [session_expiry |-> 60, receive_max |-> 10, max_qos |-> 1, retain_available |-> 1, max_packet_size |-> 1000,
                     assigned_client_id |-> S(6, "a"), topic_alias_max |-> 7, reason_string |-> S(2, "b"),
